@@ -75,6 +75,16 @@ OUT_FUNCS = {}
 # consumed by memcpy(&local, p, sizeof local), memchr(p, c, n) ==/!= NULL and as an argument of an untranslated callee
 # (then the payload must hold a NUL at or after p: the callee may read the C string there, nothing else).
 PAYLOAD_PTRS = set()
+# static const int T[256][256][N] tables indexed by two uint8_t values: T[c][v] is the primitive (<prefix>T sx st c v),
+# a row (list Z) that is only read through row[i]
+TABLES = set()
+# enum constants get the file prefix (units that translate several files with equally named, differently valued enums)
+PREFIX_CONSTS = False
+# primitive actions that are functions of the translated file itself (not translated here): they get the file prefix
+PREFIXED_PRIMS = set()
+# locals of these types are not represented: their initialisers must be free of side effects and dereferences, and
+# they may only be mentioned by the condition of an `if` whose body is ignored logging only (that `if` is skipped)
+GHOST_TYPES = set()
 # {name: C expression}: offsetof() constants asked to the compiler
 EXTRA_CONSTS = {}
 GALLINA_KEYWORDS = {"ret", "bind", "bind_", "fail", "eval", "ite", "need", "exec", "status", "cand", "cnn", "cin","end", "in", "at", "as", "fun", "let", "match", "with", "if", "then", "else", "return", "type",
@@ -289,7 +299,50 @@ class GT:
             self.bad(n, "variable %s is not a local or a parameter" % name)
         if not env[name]["init"]:
             self.bad(n, "variable %s may be read before it is assigned" % name)
+        if env[name].get("ghost"):
+            self.bad(n, "variable %s of an unrepresented type is used outside an ignored logging condition" % name)
         return env[name]
+
+    def ghost_pure(self, n, env, allow_members):
+        """no side effect, no call; member reads only if allow_members and then only through pointers that need no
+        NULL check (their translation has no safety condition)"""
+        k = n.get("kind")
+        if k in ("CallExpr", "CompoundAssignOperator") or (k == "BinaryOperator" and n.get("opcode") == "=") or \
+                (k == "UnaryOperator" and n.get("opcode") in ("++", "--", "*", "&")) or k == "ArraySubscriptExpr":
+            self.bad(n, "unrepresented local computed from / compared with something that is not a plain expression")
+        if k == "MemberExpr":
+            if not allow_members or self.member(n, env).safe is not None:
+                self.bad(n, "member read next to an unrepresented local needs a NULL check")
+            return
+        if k == "DeclRefExpr" and n.get("referencedDecl", {}).get("kind") in ("VarDecl", "ParmVarDecl"):
+            if n["referencedDecl"]["name"] not in env or not env[n["referencedDecl"]["name"]]["init"]:
+                self.bad(n, "variable read before it is assigned")
+            return
+        for c in n.get("inner", []) or []:
+            if isinstance(c, dict):
+                self.ghost_pure(c, env, allow_members)
+
+    def mentions_ghost(self, n, env):
+        if n.get("kind") == "DeclRefExpr" and env.get(n.get("referencedDecl", {}).get("name"), {}).get("ghost"):
+            return True
+        return any(self.mentions_ghost(c, env) for c in n.get("inner", []) or [] if isinstance(c, dict))
+
+    def is_log_only(self, s):
+        ss = s.get("inner", []) if s["kind"] == "CompoundStmt" else [s]
+        ss = [x for x in ss if x["kind"] != "NullStmt"]
+        if not ss:
+            return False
+        for x in ss:
+            if x["kind"] == "CallExpr" and _callee(x) in LOG_CALLS:
+                self.pure_tree(x)
+                continue
+            if x["kind"] == "DoStmt":
+                name, _ = self.macro_of(x)
+                if name in MACRO_IGNORED:
+                    self.pure_tree(x)
+                    continue
+            return False
+        return True
 
     def e_val(self, n, env):
         k = n["kind"]
@@ -342,7 +395,7 @@ class GT:
             rd = n["referencedDecl"]
             if rd["kind"] == "EnumConstantDecl":
                 self.consts[rd["name"]] = None
-                return Val("c_%s" % rd["name"])
+                return Val("c_%s%s" % (getattr(self, "prefix", "") if PREFIX_CONSTS else "", rd["name"]))
             if rd["kind"] in ("ParmVarDecl", "VarDecl"):
                 ve = self.var(n, env)
                 return Val(ve["g"], pp=bool(ve.get("pp")))
@@ -362,6 +415,22 @@ class GT:
                 safe = s_and(s_and(pre.safe, SAFE_NN % pre.t), i.safe)
                 safe = s_and(safe, SAFE_INB % ("(rd_ok_%s sx st %s %s)" % (arr, v["g"], i.t)))
                 return Val("(rd_%s sx st %s %s)" % (arr, v["g"], i.t), safe, True)
+        if k == "ArraySubscriptExpr" and TABLES:
+            b1, i1 = n["inner"]
+            inner = _strip(b1)
+            if inner.get("kind") == "ArraySubscriptExpr":
+                b0, i0 = inner["inner"]
+                r0 = _strip(b0)
+                if r0.get("kind") == "DeclRefExpr" and r0["referencedDecl"]["kind"] == "VarDecl" and r0["referencedDecl"]["name"] in TABLES:
+                    # T[c][v] with T a static table of rows: both indices must be bytes (the table is 256 x 256)
+                    if not re.match(r"^const int\s*\[256\]\[256\]\[\d+\]$", _qt(r0).strip()):
+                        self.bad(n, "table %s is not const int [256][256][N] but %s" % (r0["referencedDecl"]["name"], _qt(r0)))
+                    for ixn in (i0, i1):
+                        if self.ity(_strip(ixn)) != "uint8":
+                            self.bad(n, "table index that is not a uint8_t")
+                    x0, x1 = self.e_val(i0, env), self.e_val(i1, env)
+                    return Val("(%s%s sx st %s %s)" % (getattr(self, "prefix", ""), r0["referencedDecl"]["name"], x0.t, x1.t),
+                               s_and(x0.safe, x1.safe), True)
         if k == "ArraySubscriptExpr":
             base, idx = n["inner"]
             b, i = self.e_val(base, env), self.e_val(idx, env)
@@ -870,7 +939,7 @@ class GT:
             return self.needed(osafe, "(opq_action %d%%nat)" % self.site())
         if not (name in PRIM_ACTION or self.kinds.get(name) == "action"):
             self.bad(n, "call of %s: not an int-status function known to the translator" % name)
-        if name in getattr(self, "local_fns", ()):
+        if name in getattr(self, "local_fns", ()) or name in PREFIXED_PRIMS:
             name = getattr(self, "prefix", "") + name
         args = [self.e_val(a, env) for a in n["inner"][1:]]
         h = _indirect_holder(n)
@@ -1026,6 +1095,14 @@ class GT:
             for v in s["inner"]:
                 if v["kind"] != "VarDecl":
                     self.bad(v, "declaration")
+                if GHOST_TYPES and _qt(v).strip() in GHOST_TYPES:
+                    # a local of an unrepresented type (double): pure initialiser, only used by skipped logging conditions
+                    inits = [c for c in v.get("inner", []) if c.get("kind") not in ("FullComment",)]
+                    if len(s["inner"]) != 1 or not inits:
+                        self.bad(v, "declaration of an unrepresented local without initialiser / in a list")
+                    self.ghost_pure(inits[0], env, False)
+                    env[v["name"]] = {"g": self.gname(v["name"]), "cty": _qt(v), "init": True, "ghost": True}
+                    return self.stmts(rest, env, kind)
                 self.gtype(v)
                 name = v["name"]
                 g = self.gname(name)
@@ -1082,6 +1159,18 @@ class GT:
                 safe = self.e_val(rhs, env).safe if self.mentions_payload(rhs) else None
                 return self.needed(safe, "bind_ (opq_set %d%%nat)\n(%s)" % (self.site(), self.stmts(rest, env, kind)))
             if t.get("kind") == "MemberExpr" and s["opcode"] == "=":
+                root, chain = self.chain_of(t)
+                last = max([i for i, c in enumerate(chain) if c[2]] or [0])
+                if last > 0 and root.get("kind") == "DeclRefExpr":
+                    # p->q->a.b = e: the pointer p->q is read (with its NULL checks), then the setter of what it designates
+                    basen = chain[last][1]
+                    st = _struct_of(_qt(basen))
+                    if st is None:
+                        self.bad(s, "assignment through " + _qt(basen))
+                    b = self.e_val(basen, env)
+                    v = self.e_val(rhs, env)
+                    return self.needed(s_and(b.safe, v.safe), "bind (eval %s) (fun p_ =>\nbind_ (set_%s_%s p_ %s)\n(%s))" % (
+                        self.fn_of_state(b.t), st, "_".join(c[0] for c in chain[last:]), self.fn_of_state(v.t), self.stmts(rest, env, kind)))
                 var, st, fields, safe = self.own_fields(t, env)
                 v = self.e_val(rhs, env)
                 # (setters and stores trap on NULL by themselves: no `need` for the target)
@@ -1199,6 +1288,11 @@ class GT:
             parts = list(s["inner"])
             cond, then = parts[0], parts[1]
             els = parts[2] if len(parts) > 2 else None
+            if GHOST_TYPES and self.mentions_ghost(cond, env):
+                if els is not None or not self.is_log_only(then):
+                    self.bad(s, "condition over an unrepresented local guards more than ignored logging")
+                self.ghost_pure(cond, env, True)
+                return self.stmts(rest, env, kind)
             oc = self.out_cond(cond)
             if oc is not None:
                 call, outvar = oc
@@ -1628,7 +1722,8 @@ def translate_files(work, units, extra_incs=(), prefixes=None):
             defs.append(t.function(fn, kind))
         extra = {k2: EXTRA_CONSTS[k2] for k2 in sorted(getattr(t, "consts_extra", set()))}
         if t.consts or extra:
-            vals = cg.probe_consts(tu, incs, dict({"c_" + n: n for n in sorted(t.consts)}, **extra), work)
+            cpre = "c_" + (t.prefix if PREFIX_CONSTS else "")
+            vals = cg.probe_consts(tu, incs, dict({cpre + n: n for n in sorted(t.consts)}, **extra), work)
             for k2, v in vals.items():
                 if k2 in consts and consts[k2] != v:
                     raise cg.Unsupported("UNSUPPORTED constant %s has two values (%s, %s)" % (k2, consts[k2], v))
